@@ -89,7 +89,7 @@ IOKINDS = ['open', 'read', 'write', 'close', 'flush', 'seek', 'truncate', 'listd
 
 
 def quick_runs(prop):
-    return 900
+    return 2400
 
 
 def _fill(rng, t):
@@ -117,6 +117,36 @@ def _fill(rng, t):
     return ''.join(out)
 
 
+# short device scenarios: a fault is armed right before a statement that has the matching host call in flight
+SCENARIOS = [
+    (['OPEN "T.DAT" FOR OUTPUT AS 1', 'PRINT#1,"abc";1.5', 'WRITE#1,"q",2', 'PRINT#1,USING "##.#";3', 'CLOSE 1'], ['write', 'close', 'flush', 'open']),
+    (['OPEN "T.DAT" FOR OUTPUT AS 1:PRINT#1,"l1":PRINT#1,"l2":CLOSE', 'OPEN "T.DAT" FOR INPUT AS 1', 'INPUT#1,A$', 'LINE INPUT#1,A$',
+      'A$=INPUT$(2,#1)', 'X=EOF(1)+LOF(1)+LOC(1)', 'CLOSE'], ['read', 'open', 'seek', 'close', 'stat']),
+    (['OPEN "T.DAT" FOR APPEND AS 2', 'PRINT#2,"more"', 'CLOSE 2'], ['open', 'read', 'seek', 'truncate', 'write', 'close', 'stat']),
+    (['OPEN "R.DAT" FOR RANDOM AS 1 LEN=16', 'FIELD#1,8 AS A$,8 AS B$(1)', 'LSET A$="x":PUT#1,3', 'GET#1,1', 'PUT#1', 'X=LOF(1)', 'CLOSE'],
+     ['write', 'read', 'seek', 'open', 'close', 'stat', 'flush']),
+    (['10 PRINT "p":A$="s"', 'SAVE "X"', 'SAVE "X",A', 'SAVE "X",P', 'LIST ,"L.TXT"', 'BSAVE "M.BIN",0,100'], ['open', 'write', 'close', 'stat', 'listdir']),
+    (['10 PRINT "p"', 'SAVE "X",A', 'LOAD "X"', 'MERGE "X"', 'SAVE "Y"', 'LOAD "Y"', 'RUN "Y"', '20 CHAIN "X"', 'RUN', 'BLOAD "M.BIN",0'],
+     ['open', 'read', 'seek', 'close', 'stat', 'listdir']),
+    (['FILES', 'FILES "*.BAS"', 'MKDIR "D1"', 'CHDIR "D1"', 'FILES "..\\*.*"', 'CHDIR ".."', 'RMDIR "D1"', 'NAME "X.BAS" AS "Z.BAS"', 'KILL "Z.BAS"', 'KILL "*.DAT"'],
+     ['listdir', 'stat', 'statvfs', 'mkdir', 'rmdir', 'rename', 'remove']),
+    (['OPEN "CAS1:T" FOR OUTPUT AS 1', 'PRINT#1,STRING$(200,"c")', 'CLOSE', 'SAVE "CAS1:P"', 'LOAD "CAS1:P"', 'OPEN "CAS1:T" FOR INPUT AS 1', 'LINE INPUT#1,A$', 'CLOSE'],
+     ['write', 'read', 'seek', 'open', 'close', 'flush']),
+]
+
+
+def _scenario(rng):
+    stmts, kinds = rng.choice(SCENARIOS)
+    out = []
+    k = rng.randrange(len(stmts))
+    for i, st in enumerate(stmts):
+        if i == k or rng.random() < 0.15:
+            out.append({'op': 'io', 'kind': rng.choice(kinds), 'nth': rng.choice([1, 1, 1, 2, 3, 5]), 'errno': rng.choice(ERRNOS),
+                        'repeat': rng.choice([1, 1, 2, 50]), 'torn': rng.choice([None, None, None, 0, 1, 3])})
+        out.append({'op': 'exec', 'line': st})
+    return out
+
+
 def gen(rng, tier, prop):
     n = rng.randint(8, 45 if tier == 'quick' else 200)
     faulty = rng.random() < 0.6
@@ -127,6 +157,9 @@ def gen(rng, tier, prop):
                         'bytes': ''.join(chr(rng.randrange(256)) for _ in range(rng.choice([0, 1, 2, 3, 17, 200])))})
     for _ in range(n):
         r = rng.random()
+        if faulty and rng.random() < 0.10:
+            ops.extend(_scenario(rng))
+            continue
         if r < 0.70 or not faulty:
             if rng.random() < 0.12:
                 line = ':'.join(_fill(rng, rng.choice(TEMPLATES)) for _ in range(rng.randint(2, 3)))
